@@ -217,7 +217,11 @@ def check_eq(res, eq, r1, z1, p2, ana, name, r, npts, lines, pend):
         e0 = np.max(np.abs(eq.psi(Rs, Zs) - psi(Rs, Zs))) / scale
         e1 = np.max(np.abs(BR * Rs - dZ(Rs, Zs))) / gs
         res.extra.setdefault("interp_error", {})[name] = {"psi": float(e0), "grad": float(e1), "spacing": float(spacing)}
-        if e0 > 50 * spacing ** 3 + 1e-9 or e1 > 50 * spacing ** 2 + 1e-8:
+        # spline: third / second order. dct: the cosine series is that of the even extension of the data, whose normal derivative jumps at
+        # the box edge, so near the edge the gradient is only first-order accurate (50 h^2 was exceeded by 1.5 % on a random box of the thorough
+        # tier: my bound, not the code)
+        dct_ = "/dct/" in name
+        if e0 > 50 * spacing ** 3 + 1e-9 or e1 > (5 * spacing if dct_ else 50 * spacing ** 2) + 1e-8:
             bad.append(("analytic", "interpolant differs from the analytic function by %.3g (psi) / %.3g (gradient) at grid spacing %.3g" % (e0, e1, spacing)))
     for wid, msg in bad:
         res.violation(wid, msg + " [" + name + "]", payload)
@@ -231,6 +235,41 @@ def check_eq(res, eq, r1, z1, p2, ana, name, r, npts, lines, pend):
             lines.append("c18h " + " ".join(hx(v) for v in vals))
             pend.append((name, a, b, [float(getattr(eq, hname)(a, b)) for hname in HELP]))
     return not bad
+
+
+def inplace_arguments(res):
+    """the field functions depend on the *values* of their arguments: evaluate at arrays, shift the same array objects in place (as a finite
+    difference loop re-using a work array does), evaluate again and compare with an evaluation at fresh copies"""
+    r = vlib.rng("c18-inplace")
+    for method in ("spline", "dct"):
+        try:
+            eq, r1, z1, p2, ana = build_eq("lsn", method, r, fpol_kind="quad")
+        except Exception as e:
+            res.extra.setdefault("refused", []).append(["inplace/" + method, str(e)[:200]])
+            continue
+        R = np.array([1.31, 1.42, 1.55, 1.63])
+        Z = np.array([-0.11, 0.07, 0.18, -0.21])
+        for nm in ("psi", "Bp_R", "Bp_Z", "Bzeta", "B2", "dBzetadR", "dBzetadZ", "dB2dR", "dB2dZ", "dBdR", "dBdZ", "f_R", "f_Z", "d2psidR2", "d2psidZ2", "d2psidRdZ"):
+            fn = getattr(eq, nm, None)
+            if fn is None:
+                continue
+            res.case(key=("inplace", method, nm), nontrivial=True)
+            Rw, Zw = R.copy(), Z.copy()
+            with np.errstate(all="ignore"):
+                first = np.array(fn(Rw, Zw), dtype=float)
+                first_copy = first.copy()
+                Rw += 0.013
+                Zw -= 0.021
+                second = np.array(fn(Rw, Zw), dtype=float)
+                fresh = np.array(fn(Rw.copy(), Zw.copy()), dtype=float)
+                again = np.array(fn(R.copy(), Z.copy()), dtype=float)
+            sc = max(1e-300, float(np.max(np.abs(fresh))))
+            if not np.allclose(second, fresh, rtol=1e-12, atol=1e-12 * sc) or not np.allclose(again, first_copy, rtol=1e-12, atol=1e-12 * sc):
+                res.violation("stale-after-inplace-change:" + nm, "%s/%s: after the argument arrays were changed in place the function returns %s, at fresh copies of the "
+                              "same values it returns %s" % (method, nm, second[:2], fresh[:2]), {"method": method, "function": nm})
+                break
+        else:
+            res.traces += 1
 
 
 def shared_arrays(res):
@@ -322,6 +361,7 @@ def run(res, tier):
         if check_eq(res, eq, r1, z1, p2, ana, name, r, npts, lines, pend):
             res.traces += 1
     shared_arrays(res)
+    inplace_arguments(res)
     if res.gen_error:
         res.broken("translator could not regenerate the model (fail-closed)", res.gen_error)
         return
